@@ -132,6 +132,8 @@ func main() {
 	e2(ps, owner)
 	e3(ps, owner)
 	e4(ps, owner)
+	e5(ps, owner)
+	res.Info["E5"] = "provider-scoped model listings after the listings changed: for every ordered pair of providers that are not compatible with each other, three discovery rounds in which a model moves from the own endpoint to the other one and back; the listing under each prefix shows only what endpoints of that provider list now"
 	res.Info["E4"] = "requests naming a model: for every ordered pair of providers a deployment {own, other}, each listing a model of its own and a shared one; alphabet scope {/olla/proxy, own prefix, other prefix, openai prefix} x model {none, own's, other's, shared, unknown}; every request alone and every history of two requests on one long-lived instance; provider oracle per request, and the answer (status, serving endpoint) must equal the answer to the same request asked alone"
 	res.Info["E3"] = "failover inside a provider: for every ordered pair of providers, deployment {own (refuses), own (refuses or works), other (works, highest priority)} under the priority balancer; every attempt of the request must stay on endpoints of the prefix's provider"
 	res.Info["E2"] = "two overlapping requests under different provider prefixes (POST completion or GET model listing each), deployments {type of the second} and {both types}; gates: every record logged through a request-scoped logger and backend arrival; one thread released at a time; all orders of the blocks with <=1 preemption (<=2 thorough)"
